@@ -27,6 +27,8 @@ Unspent(nd) == {[c |-> nd.u.outs[i].c, h |-> nd.u.outs[i].h] : i \in nd.u.unspen
 \* k (the delivery counter) only picks the ancestor whose output MMR size bounds the second enumeration
 Proj(nd, k) == [head |-> nd.head, hhead |-> nd.hhead, unspent |-> Unspent(nd), nleaves |-> Len(nd.u.outs),
              nkernels |-> KernelCount(nd.head),
+             \* head of the recent-kernel (NRD) index per excess key: the height of its latest occurrence on the best chain, -1 = none
+             nrdtop |-> IF ShapeNrd THEN [kk \in NrdKeys |-> IF nd.nrd[kk] = <<>> THEN -1 ELSE nd.nrd[kk][Len(nd.nrd[kk])]] ELSE <<>>,
              enum |-> EnumOf(nd.u),
              enumAt |-> LET a == AncAt(nd.head, k % (Height(nd.head) + 1)) IN [b |-> a, cs |-> EnumUpTo(nd, a)],
              orph |-> nd.orph, hdrs |-> nd.hdrs, bodies |-> nd.bodies,
@@ -195,10 +197,12 @@ MCSimSpec == Init /\ TrunkStored /\ hist = <<>> /\ [][SimNext /\ hist' = IF last
 
 MCInit == Init /\ hist = <<>>
 \* with the operator action (only for configurations that check the C02 invariants)
-NextR == NextX \/ (\E b \in Ids : ResetHead(b))
+NextR == Next \/ (\E b \in Ids : ResetHead(b))
 MCNextR == /\ NextR
            /\ hist' = hist
 MCSpecR == MCInit /\ [][MCNextR]_mcvars
+\* with restarts on a damaged output_pos index (Reindex)
+MCSpecX == MCInit /\ [][NextX /\ hist' = hist]_mcvars
 MCNext == /\ Next
           /\ hist' = IF last'.k \in Recorded
                      THEN Append(hist, HistRec)
